@@ -198,11 +198,119 @@ func Guards(b *ssa.BasicBlock) []Guard {
 				continue
 			}
 			if len(s.Preds) == 1 && s.Dominates(b) {
+				g := Guard{Cond: ifi.Cond, Polarity: k == 0, If: ifi}
+				out = append(out, g)
+				out = append(out, impliedGuards(g, 0)...)
+			}
+		}
+	}
+	return out
+}
+
+// impliedGuards: the branch condition is the boolean result of a function of the analysed module (a
+// predicate helper such as `func (s *T) skip() bool { return s.flag }` or `ok && x.n == 0`). Taking
+// the branch with that result establishes what the helper's body established on its way to returning
+// that value: the conditions returned are values of the helper, so they can be matched by what they
+// are (a load of a given field, a comparison with a constant) but not against values of the caller.
+func impliedGuards(g Guard, depth int) []Guard {
+	if depth > 2 {
+		return nil
+	}
+	c, pol := StripNot(g.Cond, g.Polarity)
+	call, ok := c.(*ssa.Call)
+	if !ok {
+		return nil
+	}
+	h := call.Call.StaticCallee()
+	if h == nil || len(h.Blocks) == 0 || h.Pkg == nil || call.Parent().Pkg == nil {
+		return nil
+	}
+	if !sameModule(h, call.Parent()) {
+		return nil
+	}
+	res := h.Signature.Results()
+	if res.Len() != 1 || !types.Identical(res.At(0).Type().Underlying(), types.Typ[types.Bool]) {
+		return nil
+	}
+	// returns that can yield the value `pol`
+	type cand struct {
+		blk *ssa.BasicBlock // block whose dominating guards hold when this value is produced
+		val ssa.Value       // non-constant value that must equal pol (nil if the value is the constant)
+	}
+	var cands []cand
+	for _, ret := range Returns(h) {
+		v := ReturnOperand(ret, 0)
+		if b, isC := ConstBool(v); isC {
+			if b == pol {
+				cands = append(cands, cand{ret.Block(), nil})
+			}
+			continue
+		}
+		if ph, isPhi := v.(*ssa.Phi); isPhi {
+			for i, e := range ph.Edges {
+				if i >= len(ph.Block().Preds) {
+					continue
+				}
+				if b, isC := ConstBool(e); isC {
+					if b == pol {
+						cands = append(cands, cand{ph.Block().Preds[i], nil})
+					}
+					continue
+				}
+				cands = append(cands, cand{ph.Block().Preds[i], e})
+			}
+			continue
+		}
+		cands = append(cands, cand{ret.Block(), v})
+	}
+	if len(cands) != 1 {
+		return nil // a disjunction of ways to produce the value: nothing is implied
+	}
+	var out []Guard
+	cd := cands[0]
+	// the guards of the block (plus the branch of the block's own dominator chain)
+	for _, g2 := range guardsNoExpand(cd.blk) {
+		out = append(out, g2)
+		out = append(out, impliedGuards(g2, depth+1)...)
+	}
+	if cd.val != nil {
+		g2 := Guard{Cond: cd.val, Polarity: pol}
+		out = append(out, g2)
+		out = append(out, impliedGuards(g2, depth+1)...)
+	}
+	return out
+}
+
+// ImpliedGuards is the exported form of impliedGuards (what a predicate helper's result establishes).
+func ImpliedGuards(g Guard) []Guard { return impliedGuards(g, 0) }
+
+func guardsNoExpand(b *ssa.BasicBlock) []Guard {
+	var out []Guard
+	// include the edge into b itself when b has a single predecessor ending in an If
+	for d := b.Idom(); d != nil; d = d.Idom() {
+		ifi, ok := lastInstr(d).(*ssa.If)
+		if !ok {
+			continue
+		}
+		for k, s := range d.Succs {
+			other := d.Succs[1-k]
+			if s == other {
+				continue
+			}
+			if len(s.Preds) == 1 && (s == b || s.Dominates(b)) {
 				out = append(out, Guard{Cond: ifi.Cond, Polarity: k == 0, If: ifi})
 			}
 		}
 	}
 	return out
+}
+
+func sameModule(a, b *ssa.Function) bool {
+	pa, pb := FuncPkg(a), FuncPkg(b)
+	if pa == nil || pb == nil {
+		return false
+	}
+	return strings.HasPrefix(pa.Path(), ModPath) && strings.HasPrefix(pb.Path(), ModPath)
 }
 
 // EdgeGuards returns the guards that hold when control flows along the edge from -> to (the
